@@ -104,9 +104,18 @@ type Hidden interface {
 }
 `
 
+// a second package whose DECLARED name is ifs as well; package u imports it under an alias and lists it FIRST
+const c05SrcOtherIfs = `package ifs
+
+type Reader interface {
+	Other()
+}
+`
+
 const c05SrcU = `package u
 
 import (
+	oifs "zzmod/other/ifs"
 	"zzmod/ifs"
 	yy "zzmod/ifs"
 	"zzmod/yamlv3"
@@ -209,6 +218,7 @@ func (t T16) m() {}
 var _ = ifs.Named(0)
 var _ yy.Empty
 var _ yaml.M
+var _ oifs.Reader
 `
 
 // a second file of package u with DIFFERENT imports: bindings are per file
@@ -232,13 +242,13 @@ var c05Alts = []string{
 	" @implements ifs.Var", " @implements ifs.Sl", " @implements yaml.M", " @implements &yaml.M", " @implements yaml.N", " @implements ifs.Al", " @implements &ifs.Fn",
 	" @implements ifs.Empty", " @implements ifs.Nope", " @implements ifs.NotIface", " @implements nope.Reader", " @implements yamlv3.M", " @implements u.Local", " plain",
 	" @implements ifs.Sealed", " @implements &ifs.Sealed", " @implements rd.M", " @implements &rd.N",
-	" @implements ifs.AnyI", " @implements ifs.ByteI", " @implements ifs.FnNames", " @implements ifs.AlComp", " @implements ifs.Hidden", " @implements UI",
+	" @implements oifs.Reader", " @implements ifs.AnyI", " @implements ifs.ByteI", " @implements ifs.FnNames", " @implements ifs.AlComp", " @implements ifs.Hidden", " @implements UI",
 }
 
 // what Go's type checker says about one annotation spelling on one type: "" (fine), IMPL01, IMPL02 or IMPL03
 func c05GoVerdict(prog *nd.Prog, typeName, alt string) string {
 	// bindings of the file's imports: explicit alias, else the imported package's declared name
-	bound := map[string]string{"ifs": "zzmod/ifs", "yy": "zzmod/ifs", "yaml": "zzmod/yamlv3"}
+	bound := map[string]string{"ifs": "zzmod/ifs", "yy": "zzmod/ifs", "yaml": "zzmod/yamlv3", "oifs": "zzmod/other/ifs"}
 	if typeName == "T9" { // declared in the second file, which imports only zzmod/yamlv3 as rd
 		// (the property counts an import as binding both its explicit alias and the package's declared name)
 		bound = map[string]string{"rd": "zzmod/yamlv3", "yaml": "zzmod/yamlv3"}
@@ -295,7 +305,7 @@ func c05GoMissing(prog *nd.Prog, typeName, alt string) map[string]bool {
 	if i := strings.Index(spec, "."); i >= 0 {
 		q, name = spec[:i], spec[i+1:]
 	}
-	bound := map[string]string{"ifs": "zzmod/ifs", "yy": "zzmod/ifs", "yaml": "zzmod/yamlv3", "rd": "zzmod/yamlv3", "": "zzmod/u"}
+	bound := map[string]string{"ifs": "zzmod/ifs", "yy": "zzmod/ifs", "yaml": "zzmod/yamlv3", "rd": "zzmod/yamlv3", "": "zzmod/u", "oifs": "zzmod/other/ifs"}
 	iface := prog.Pkg(bound[q]).Scope().Lookup(name).Type().Underlying().(*types.Interface)
 	var t types.Type = prog.Pkg("zzmod/u").Scope().Lookup(typeName).Type()
 	if ptr {
@@ -334,7 +344,7 @@ func ZZC05Zoo() {
 		vals[tn] = nd.PinStr(vals[tn])
 		holes[i].Value = vals[tn]
 	}
-	files := []nd.File{{Pkg: "zzmod/yamlv3", Name: "y.go", Src: c05SrcYaml}, {Pkg: "zzmod/ifs", Name: "i.go", Src: c05SrcIfs}, {Pkg: "zzmod/u", Name: "u.go", Src: c05SrcU}, {Pkg: "zzmod/u", Name: "u2.go", Src: c05SrcU2}}
+	files := []nd.File{{Pkg: "zzmod/yamlv3", Name: "y.go", Src: c05SrcYaml}, {Pkg: "zzmod/ifs", Name: "i.go", Src: c05SrcIfs}, {Pkg: "zzmod/other/ifs", Name: "o.go", Src: c05SrcOtherIfs}, {Pkg: "zzmod/u", Name: "u.go", Src: c05SrcU}, {Pkg: "zzmod/u", Name: "u2.go", Src: c05SrcU2}}
 	prog := nd.LoadProgram(files, holes)
 	res := Analyze(prog, config.Default(), "zzmod/u", Facts{}, "impl")
 	width := 0
